@@ -117,14 +117,14 @@ structure Rel (kind : Kind) (s : Sys) (sp : Spec) : Prop where
   kind   : s.kind = kind
   opened : s.opened = sp.opened
   n      : s.n = sp.n
-  names  : s.opened = true → ∀ i, (s.caches i).names = sp.names i
-  ltk    : s.opened = true → ∀ i, (s.caches i).ltk = dkeys (sp.dicts i)
+  names  : s.opened = true → ∀ i, s.names i = sp.names i
+  ltk    : s.opened = true → ∀ i, s.ltk i = dkeys (sp.dicts i)
   disk   : s.opened = true → ∀ i k, s.disk i k = dget (sp.dicts i) k
-  stc    : s.opened = true → ∀ i k v, (s.caches i).stc k = some v → dget (sp.dicts i) k = some v
-  stk    : s.opened = true → ∀ i k v, (s.caches i).stc k = some v → k ∈ (s.caches i).stk
+  stc    : s.opened = true → ∀ i k v, s.stc i k = some v → dget (sp.dicts i) k = some v
+  stk    : s.opened = true → ∀ i k v, s.stc i k = some v → k ∈ s.stk i
 
 theorem rel_init (kind : Kind) : Rel kind (init kind) specInit := by
-  constructor <;> simp [init, specInit, Cache.empty, dkeys, dget]
+  constructor <;> simp [init, specInit, dkeys, dget]
 
 theorem preloadLoop_spec (ltk : List Key) (r : Bool) (ks : List Key) :
     preloadLoop ltk true r ks
@@ -141,5 +141,92 @@ theorem mem_foldl_setAdd (ks : List Key) (l : List Key) (k : Key) :
   induction ks generalizing l with
   | nil => simp
   | cons a r ih => simp only [List.foldl_cons, ih, setAdd]; grind
+
+theorem ddel_not_mem (d : Dict) (k : Key) (h : k ∉ dkeys d) : ddel d k = d := by
+  induction d with
+  | nil => rfl
+  | cons p r ih => obtain ⟨a, b⟩ := p; grind [ddel, dkeys]
+
+macro "cache_case" : tactic => `(tactic|
+   (refine ⟨⟨?_, ?_, ?_, ?_, ?_, ?_, ?_, ?_⟩, ?_⟩ <;>
+     (try simp only [setitem, get, getitem, delitem, setShortTermKeys, preload, createSubcache, close,
+       if_true, setLtk, setStc, setDisk, setStk, preloadLoop_spec, *]) <;>
+     grind [dkeys_dset, dget_dset, dkeys_ddel, dget_ddel, mem_foldl_setAdd, ddel_not_mem]))
+
+theorem rel_step_open (kind : Kind) (s : Sys) (sp : Spec) (h : Rel kind s sp) (i : Nat) (op : Op)
+    (hi : i < s.n) (hop : s.opened = true) :
+    Rel kind (step s i op).1 (specStep kind sp i op).1 ∧
+      ∀ x, (specStep kind sp i op).2 = some x → (step s i op).2 = x := by
+  obtain ⟨hk, ho, hn, hnm, hl, hd, hs, hst⟩ := h
+  have hi' : i < sp.n := hn ▸ hi
+  have hop' : sp.opened = true := ho ▸ hop
+  have hnm := hnm hop; have hl := hl hop; have hd := hd hop; have hs := hs hop; have hst := hst hop
+  have hmem := mem_dkeys_iff
+  have hlen := dkeys_length
+  cases op with
+  | set k v => simp only [step, hi, specStep, hi', hop', hop, if_true]; cache_case
+  | get k =>
+    simp only [step, hi, specStep, hi', hop', hop, if_true, get]
+    by_cases hkl : k ∈ s.ltk i <;> simp only [hkl, if_true, if_false]
+    · simp only [getitem, hkl, if_true, hop]
+      cases hc : s.stc i k <;> cases hdk : s.disk i k <;> simp only [] <;> cache_case
+    · cache_case
+  | getitem k =>
+    simp only [step, hi, specStep, hi', hop', hop, if_true, getitem]
+    cases hc : s.stc i k <;> simp only []
+    · by_cases hkl : k ∈ s.ltk i <;> simp only [hkl, if_true, if_false]
+      · cases hdk : s.disk i k <;> simp only [] <;> cache_case
+      · cache_case
+    · cache_case
+  | del k =>
+    simp only [step, hi, specStep, hi', hop', hop, if_true]
+    by_cases hkl : k ∈ s.ltk i <;> simp only [delitem, hkl, if_true, if_false, hop] <;> cache_case
+  | contains k => simp only [step, hi, specStep, hi', hop', hop, if_true]; cache_case
+  | len => simp only [step, hi, specStep, hi', hop', hop, if_true]; cache_case
+  | iter => simp only [step, hi, specStep, hi', hop', hop, if_true]; cache_case
+  | setShortTermKeys ks => simp only [step, hi, specStep, hi', hop', hop, if_true]; cache_case
+  | preload ks r => simp only [step, hi, specStep, hi', hop', hop, if_true]; cache_case
+  | createSubcache name =>
+    simp only [step, hi, specStep, hi', hop', hop, if_true, createSubcache, hk, hnm]
+    by_cases hu : (kind.uniqueNames && (sp.names i).contains name) = true <;>
+      simp only [hu, if_true, if_false, Bool.false_eq_true] <;> cache_case
+  | close =>
+    simp only [step, hi, specStep, hi', hop', hop, if_true]
+    by_cases h0 : i = 0 <;> simp only [h0, if_true, if_false, close, hop] <;> cache_case
+  | isOpen => simp only [step, hi, specStep, hi', hop', hop, if_true]; cache_case
+
+theorem step_closed (s : Sys) (i : Nat) (op : Op) (hop : s.opened = false) :
+    (step s i op).1.opened = false ∧ (step s i op).1.kind = s.kind ∧ (step s i op).1.n = s.n := by
+  unfold step
+  split
+  · cases op <;>
+      simp only [setitem, get, getitem, delitem, setShortTermKeys, preload, createSubcache, close, hop,
+        setLtk, setStc, setDisk, setStk, Bool.false_eq_true, if_false] <;>
+      (repeat' split) <;> simp [hop]
+  · simp [hop]
+
+theorem rel_step (kind : Kind) (s : Sys) (sp : Spec) (h : Rel kind s sp) (i : Nat) (op : Op) :
+    Rel kind (step s i op).1 (specStep kind sp i op).1 ∧
+      ∀ x, (specStep kind sp i op).2 = some x → (step s i op).2 = x := by
+  by_cases hi : i < s.n
+  case neg =>
+    have hi' : ¬ i < sp.n := h.n ▸ hi
+    simp only [step, hi, specStep, hi', if_false]
+    exact ⟨h, by simp⟩
+  by_cases hop : s.opened = true
+  · exact rel_step_open kind s sp h i op hi hop
+  · have hopf : s.opened = false := by simpa using hop
+    have hop' : sp.opened = false := h.opened ▸ hopf
+    have hi' : i < sp.n := h.n ▸ hi
+    obtain ⟨c1, c2, c3⟩ := step_closed s i op hopf
+    have hsp : (specStep kind sp i op).1 = sp := by
+      simp only [specStep, hi', hop', if_true]; cases op <;> simp
+    refine ⟨?_, ?_⟩
+    · rw [hsp]
+      refine ⟨c2 ▸ h.kind, by rw [c1, hop'], by rw [c3, h.n], ?_, ?_, ?_, ?_, ?_⟩ <;> simp [c1]
+    · intro x hx
+      simp only [specStep, hi', hop', if_true] at hx
+      cases op <;> simp at hx <;> simp [step, hi, close, hopf] <;> grind
+
 
 end TenpyModel.C20.Cache
